@@ -295,6 +295,14 @@ def run_cases(ctx, binpath, cases, tag="ctl", queries=None, workers=12):
     """cases: list of dict(rf, world, events). Returns (results per query, outs)."""
     for i, c in enumerate(cases):
         c["id"] = i
+        # what the monitor channel carries when a replica is reported: an error (failed ping) or nil (the rpc
+        # client found the connection dead); the controller must treat both alike — alternate between them
+        k = 0
+        for e in c["events"]:
+            for x in ((e.get("first"), e.get("second")) if e["k"] == "pair" else (e,)):
+                if x and x["k"] == "monfail":
+                    x.setdefault("nilerr", (i + k) % 2 == 1)
+                    k += 1
     outs = vlib.run_harness(ctx, binpath, cases, netns=True, tag=tag, workers=workers, timeout=1800)
     terms = []
     for c in cases:
